@@ -137,7 +137,7 @@ var _ fhir.Resource = (*ppb.Patient)(nil)
 
 // Literal pools (sources). MinInt32 cannot be written as a literal, so it is an expression.
 var (
-	IntSrcs = []string{"0", "1", "-1", "2", "-2", "3", "7", "10", "46340", "46341", "-46341", "65536", "2147483646", "2147483647", "-2147483647", "(-2147483647 - 1)", "%minint", "%fint", "%fminint", "%fpos", "%funs", "%fbig"}
+	IntSrcs = []string{"0", "1", "-1", "2", "-2", "3", "7", "10", "50", "(-10)", "700", "(-745)", "40000000", "46340", "46341", "-46341", "65536", "2147483646", "2147483647", "-2147483647", "(-2147483647 - 1)", "%minint", "%fint", "%fminint", "%fpos", "%funs", "%fbig"}
 	DecSrcs = []string{"0.0", "0.00", "1.0", "1.00", "-1.0", "0.5", "1.5", "2.5", "-0.5", "-2.5", "3.14159", "0.1", "100.0",
 		"1000000000000000000000000000000.0", "0.000000000000000000000000000001", "99999999999.9", "-99999999999.9",
 		"12345678901234567890.123456789", "2147483647.5", "2147483648.0", "-2147483648.5", "%fdec",
